@@ -301,9 +301,68 @@ pub fn first_line_cases() -> Vec<RangeCase> {
     out
 }
 
+/// Keys behind (and in front of) white space that is not ASCII: the reported columns are BYTE columns of the
+/// trimmed key, whatever the blanks around it weigh. One batch per host; each block holds a healthy first line and
+/// an offending second line `<lead><key><trail>` for one of the three key rules.
+#[derive(Clone, Debug, Serialize, Deserialize)]
+pub struct PaddedKeys {
+    /// 0 sh, 1 rb, 2 sh with CRLF, 3 sh with the end tag trailing the last content line
+    pub host: u8,
+    /// (rule 0 keep-sorted / 1 keep-unique / 2 line-pattern, index into PAD_LEAD, index into PAD_TRAIL, indent of the tag comments)
+    pub blocks: Vec<(u8, u8, u8, u8)>,
+}
+
+pub const PAD_LEAD: &[&str] = &["\u{a0}", "\u{a0}\u{a0}", "\u{3000}", "\u{2003}", "\u{85}", "\t\u{3000}", " \u{a0}", "\u{a0} ", "\u{2028}", "  ", ""];
+pub const PAD_TRAIL: &[&str] = &["", "\u{a0}", " \u{3000}", "\t"];
+
+pub fn check_padded(c: &PaddedKeys, probe: &Probe) -> Verdict {
+    use crate::rules::{ExpDiag, Host, RuleBlock};
+    let host = [Host::Sh, Host::Rb, Host::ShCrlf, Host::ShTrail][c.host as usize % 4];
+    let mut blocks = vec![];
+    let mut spans = vec![];
+    for (i, (rule, lead, trail, indent)) in c.blocks.iter().enumerate() {
+        let lead = PAD_LEAD[*lead as usize % PAD_LEAD.len()];
+        let trail = PAD_TRAIL[*trail as usize % PAD_TRAIL.len()];
+        let (attr, first, key): ((String, Option<String>), &str, &str) = match rule % 3 {
+            0 => (("keep-sorted".into(), Some("asc".into())), "banana", "apple"),
+            1 => (("keep-unique".into(), None), "  dup", "dup"),
+            _ => (("line-pattern".into(), Some("^[a-z]+$".into())), "ok", "bad-1"),
+        };
+        // (a trailing blank would be content of the end-tag line under the trailing-end-tag layout: none there)
+        let trail = if host == Host::ShTrail { "" } else { trail };
+        blocks.push(RuleBlock { attrs: vec![("name".into(), Some(format!("p{i}"))), attr], lines: vec![first.to_string(), format!("{lead}{key}{trail}")], indent: (*indent % 4) as usize });
+        spans.push((["keep-sorted", "keep-unique", "line-pattern"][(*rule % 3) as usize], (lead.len(), lead.len() + key.len())));
+        if !lead.is_ascii() {
+            probe.nontrivial_sub(&(i, lead, key));
+        }
+        probe.class(if lead.is_ascii() { "padded-keys:ascii-lead" } else { "padded-keys:multi-byte-lead" });
+    }
+    probe.evals(c.blocks.len() as u64 - 1);
+    let exp = |i: usize, pos: &crate::rules::BlockPos| -> Vec<ExpDiag> { vec![ExpDiag::key(spans[i].0, pos, 1, spans[i].1)] };
+    let reduce = |i: usize| serde_json::to_value(PaddedKeys { host: c.host, blocks: vec![c.blocks[i]] }).unwrap();
+    super::linerules::check_rule_batch("C10", host, &blocks, &exp, probe, &reduce)
+}
+
+pub fn padded_items() -> Vec<PaddedKeys> {
+    let mut out = vec![];
+    for host in 0..4u8 {
+        let mut blocks = vec![];
+        for rule in 0..3u8 {
+            for lead in 0..PAD_LEAD.len() as u8 {
+                for trail in 0..PAD_TRAIL.len() as u8 {
+                    blocks.push((rule, lead, trail, (lead + trail) % 3));
+                }
+            }
+        }
+        out.push(PaddedKeys { host, blocks });
+    }
+    out
+}
+
 pub fn run(run: &mut Run) {
-    run.rule = "enumerated first-line: under every suffix x comment form x indentation {0,2,5} x comment shape (one line, tag after a line break, text after the tag on a later line, both) x code before the comment x code / text after it on its closing line x Markdown container, one block whose first content line breaks its line-pattern (the key's column depends on where the start tag's comment ends); the plainest shape of every form also below 70 000 empty lines and with a 70 000-byte attribute in the tag (line numbers and columns beyond 65 535). random: a generated source file of any of the 39 suffixes (every comment layout of the builder: own-line and trailing line comments, block comments with code before/after, tag on a later line of a multi-line comment, comments continuing after the tag, multi-line tags, several tags per comment, Markdown/HTML forms, indentation, CRLF) whose blocks each carry one rule from {keep-sorted asc/desc, keep-unique, line-pattern, keep-sorted with a numeric regex key in the middle of a line after multi-byte text, keep-unique with a regex, line-count, check-lua, affects (diff mode), check-ai (fake endpoint)}; content is whatever the file holds between the comments (code lines, key lines, nested tag comments, noise). Expected: key rules -> the key computed by the C06–C08 reference models on the constructed content, located by absolute offset; tag rules -> the constructed start tag from `<` to `>`. Every reported range is sliced out of the file's bytes and compared (text and numbers). Non-trivial = the tag is not on the last line of its comment / sits on a later line / is multi-line, or the key is on the tag's or end tag's line, preceded by multi-byte text, or after a comment form that swallows its line terminator.".into();
+    run.rule = "enumerated padded-keys: the offending key of a keep-sorted / keep-unique / line-pattern block behind 11 leading and in front of 4 trailing white-space runs that are not (only) ASCII (NBSP, ideographic space, em space, NEL, U+2028, tab + ideographic space, ...) in LF / CRLF shell files, Ruby files and shell files whose end tag trails the last line: the range is the trimmed key in BYTE columns. enumerated first-line: under every suffix x comment form x indentation {0,2,5} x comment shape (one line, tag after a line break, text after the tag on a later line, both) x code before the comment x code / text after it on its closing line x Markdown container, one block whose first content line breaks its line-pattern (the key's column depends on where the start tag's comment ends); the plainest shape of every form also below 70 000 empty lines and with a 70 000-byte attribute in the tag (line numbers and columns beyond 65 535). random: a generated source file of any of the 39 suffixes (every comment layout of the builder: own-line and trailing line comments, block comments with code before/after, tag on a later line of a multi-line comment, comments continuing after the tag, multi-line tags, several tags per comment, Markdown/HTML forms, indentation, CRLF) whose blocks each carry one rule from {keep-sorted asc/desc, keep-unique, line-pattern, keep-sorted with a numeric regex key in the middle of a line after multi-byte text, keep-unique with a regex, line-count, check-lua, affects (diff mode), check-ai (fake endpoint)}; content is whatever the file holds between the comments (code lines, key lines, nested tag comments, noise). Expected: key rules -> the key computed by the C06–C08 reference models on the constructed content, located by absolute offset; tag rules -> the constructed start tag from `<` to `>`. Every reported range is sliced out of the file's bytes and compared (text and numbers). Non-trivial = the tag is not on the last line of its comment / sits on a later line / is multi-line, or the key is on the tag's or end tag's line, preceded by multi-byte text, or after a comment form that swallows its line terminator.".into();
     run.assumptions = vec!["grammar-rejected sources are discarded; regex keys come from the fixed family with hand-written extractors".into()];
     run.enumerate("first-line", first_line_cases(), Some("one line-pattern block per suffix x comment form x indentation x comment shape x code before / after the comment x Markdown container"), check);
+    run.enumerate("padded-keys", padded_items(), Some("3 key rules x 11 leading x 4 trailing white-space runs (NBSP, ideographic space, em space, NEL, U+2028, tab + ideographic space, mixed with ASCII blanks) x 4 shell / Ruby layouts"), check_padded);
     run.random("ranges", run.tier.pick(2500, 60000), case_strategy, check);
 }
